@@ -17,6 +17,7 @@ from harness.engine.report import Report
 from harness.drivers.c09_globalquad import mc, fr, LAT
 
 PROP = 'C15'
+OWNED = {}
 BOXES = [(0.0, 1.0), (-2.0, 6.0), (1.5, 2.0)]
 
 
@@ -219,7 +220,9 @@ def multi_dim_weights(rep, tier, rng):
                     xs = [float(a[d] + (b[d] - a[d]) * v / 16) for v in ps]
                     try:
                         with impl.quiet(), impl.watchdog(60):
-                            w = [float(v) for v in grid.compute_1D_quad_weights(list(xs), float(a[d]), float(b[d]), d)]
+                            own = OWNED.setdefault((str(info), str(bounds), bnd), [])      # a list the caller keeps and rewrites in place between the calls
+                            own[:] = list(xs)
+                            w = [float(v) for v in grid.compute_1D_quad_weights(own if len(ps) % 2 == 0 else list(xs), float(a[d]), float(b[d]), d)]
                             ref = [float(v) for v in GW.compute_weights(list(xs), float(a[d]), float(b[d]), singles[d], bnd, False)]
                     except impl.Timeout:
                         rep.exclude('multi-dimensional weights %s: timeout' % (info,))
